@@ -370,7 +370,9 @@ func c16b(c *Ctx) {
 					if j := strings.IndexAny(rest, ",)] \""); j >= 0 {
 						rest = rest[:j]
 					}
-					if !strings.Contains(rest, "[") {
+					// ... that carries source text: a chunk id printed in a generated goto is not
+					// something the author wrote on the marker's line
+					if !strings.Contains(rest, "[") && !strings.HasSuffix(rest, "ID") && !strings.HasSuffix(rest, "Id") && rest != "id" {
 						ok = true
 					}
 					from += i + 1
@@ -481,20 +483,39 @@ func c16c(c *Ctx) {
 			if !ok || fieldName(fa.X.Type(), fa.Field) != "Literal" || !typeIs(fa.X.Type(), "token", "Token") {
 				return
 			}
-			a, ok := fa.X.(*ssa.Alloc)
-			if !ok {
-				return
-			}
-			// the load the copy was initialised from
+			// the load the copy was initialised from: the token is a local of its own, or a token
+			// field of a local record (`entry := T{Condition: p.curToken}; entry.Condition.Literal = …`)
 			var lds []*ssa.UnOp
-			for _, r := range *a.Referrers() {
-				if w, ok := r.(*ssa.Store); ok && w.Addr == ssa.Value(a) {
-					if ld, ok := w.Val.(*ssa.UnOp); ok {
-						if _, t, f, ok := fieldAddrOf(ld.X); ok && typeIs(t, "parser", "Parser") && strings.HasSuffix(f, "Token") {
-							lds = append(lds, ld)
+			fromWindow := func(v ssa.Value) {
+				if ld, ok := v.(*ssa.UnOp); ok {
+					if _, t, f, ok := fieldAddrOf(ld.X); ok && typeIs(t, "parser", "Parser") && strings.HasSuffix(f, "Token") {
+						lds = append(lds, ld)
+					}
+				}
+			}
+			switch a := fa.X.(type) {
+			case *ssa.Alloc:
+				for _, r := range *a.Referrers() {
+					if w, ok := r.(*ssa.Store); ok && w.Addr == ssa.Value(a) {
+						fromWindow(w.Val)
+					}
+				}
+			case *ssa.FieldAddr:
+				rec, isRec := a.X.(*ssa.Alloc)
+				if !isRec {
+					return
+				}
+				for _, r := range *rec.Referrers() {
+					if fa2, ok := r.(*ssa.FieldAddr); ok && fa2.Field == a.Field && fa2.Referrers() != nil {
+						for _, r2 := range *fa2.Referrers() {
+							if w, ok := r2.(*ssa.Store); ok && w.Addr == ssa.Value(fa2) {
+								fromWindow(w.Val)
+							}
 						}
 					}
 				}
+			default:
+				return
 			}
 			if len(lds) == 0 {
 				return
